@@ -43,8 +43,10 @@ noncomputable def cog12_alpha_code (p : Cog12.P) : ℝ :=
   (p.beta + 4) * (1 + p.gamma) + ((p.geometry - 1) - 1) / (2 - (p.gamma - 1) * ((p.geometry - 1) + 1))
 
 /-- the traced path conditions are the range test of the code's α -/
-theorem cog12_c0_iff (p : Cog12.P) (r t : ℝ) : Cog12.c0 p r t ↔ cog12_alpha_code p < -2 := Iff.rfl
-theorem cog12_c1_iff (p : Cog12.P) (r t : ℝ) : Cog12.c1 p r t ↔ -1 < cog12_alpha_code p := Iff.rfl
+theorem cog12_c0_iff (p : Cog12.P) (r t : ℝ) : Cog12.c0 p r t ↔ cog12_alpha_code p < -2 := by
+  unfold cog12_alpha_code; simp only [epv_cond] <;> epv_arith_iff
+theorem cog12_c1_iff (p : Cog12.P) (r t : ℝ) : Cog12.c1 p r t ↔ -1 < cog12_alpha_code p := by
+  unfold cog12_alpha_code; simp only [epv_cond] <;> epv_arith_iff
 
 /-- the α the code tests is not the documented one (defaults: 53/4 against -7/5); only the printed
 warning is affected -/
